@@ -117,4 +117,4 @@ _add("C19", "drain completeness and close⇒drain rules, interprocedural lockset
 _add("C20", "nesting-counter discipline, character-classification rule, caller-established index preconditions", "an invocation that gave its nesting level back reads no further node (the bound cannot be bypassed); unicode predicates are applied to decoded characters; an index on a parameter of an unexported helper is proved at every call site.")
 for _id in list(CLAIMED):
     tech, text, note, ref = CLAIMED[_id]
-    CLAIMED[_id] = (tech, text, note + "; rules are form-agnostic (named booleans, if/switch, loop forms, extracted helpers, renamed unexported functions and fields – DESIGN.md §R.7) and measured against a corpus of 21 behaviour-preserving refactorings (refactorings/, refacall.sh)", ref)
+    CLAIMED[_id] = (tech, text, note + "; rules are form-agnostic (named booleans, if/switch, loop forms, extracted helpers, renamed unexported functions and fields – DESIGN.md §R.7) and measured against a corpus of 22 behaviour-preserving refactorings (refactorings/, refacall.sh)", ref)
